@@ -210,7 +210,7 @@ PROPS["C07"] = dict(
                 "variants, and for ten JWK templates every member x 16 shapes (thorough: every pair of members x pair of shapes) is "
                 "loaded through the applicable entry points; set error, item count, document order (set vs element-by-element), "
                 "per-item error/message/material and agreement between entry points are judged against jansson's own verdict on "
-                "the text; every imported key is then used for a sign/verify attempt (memory safety only); member shapes include non-ASCII UTF-8 text and leading/embedded = padding; the counted-reader length sweep (embedded NUL, trailing junk) also runs through the file and FILE* readers"),
+                "the text; every imported key is then used for a sign/verify attempt (memory safety only); member shapes include non-ASCII UTF-8 text and leading/embedded = padding; the counted-reader length sweep (embedded NUL, trailing junk) also runs through the file and FILE* readers; well-formed over-long values (48 and 69 octets); the quick tier runs all pairs of seven basic shapes"),
     level_note="trusts jansson's json_loadb(JSON_DECODE_ANY) as the definition of 'is JSON'; ASan/UBSan for the crash clause; live-block counts of libjwt+jansson+libcrypto for leaks",
     rule=("evaluations = load calls judged; cases group inputs by family; non-trivial = distinct documents (by content hash) that "
           "produced at least one item; distinct outcomes = (set error, item count) vectors"),
@@ -313,7 +313,7 @@ PROPS["C12"] = dict(
                 "both providers; byte-identical output for HS*, RS*, EdDSA; every C01 mutant the reference calls invalid must be "
                 "rejected by both providers; every depth-3 history over the d=1 edit neighbourhood of the provider names "
                 "(deletions, case flips, substitutions, insertions) and ids -2..12 against the model 'changes only on an exact "
-                "compiled-in name or id'; every JWT_CRYPTO value of the quantifier by re-executing the harness with the variable set; key rotation with certain address reuse (5 algorithm families x 3 key sequences x 16 sign/verify/load/free provider quadruples, every round freeing its keyring, builder and checker before the next); every two-step sequence of switch operations after every JWT_CRYPTO start value (re-executed process)"),
+                "compiled-in name or id'; every JWT_CRYPTO value of the quantifier by re-executing the harness with the variable set; key rotation with certain address reuse (5 algorithm families x 3 key sequences x 16 sign/verify/load/free provider quadruples, every round freeing its keyring, builder and checker before the next); every two-step sequence of switch operations after every JWT_CRYPTO start value (re-executed process); RSA keys of 2050 and 3002 bits (modulus not a whole number of octets)"),
     level_note="ES256K/secp256k1 are OpenSSL-only and excluded, as the statement scopes",
     rule=("evaluations = verifications; switching: states = 2 providers, transitions = set_crypto_ops calls compared with the model; "
           "non-trivial = cases that executed a cross-provider comparison"),
@@ -403,7 +403,7 @@ PROPS["C20"] = dict(
                 "integers up to +-2^63 incl. hex/octal forms, also as a future exp and a past nbf; 9 boolean spellings; 7 strings): "
                 "the payload must carry strtol()'s value and jwt-verify must accept; key2jwk -> jwk2key for every key of the pool in private and public form (leading-zero EC "
                 "keys included) and oct files of 32-512 bytes, comparing the JWK member by member with the harness's own JWK of "
-                "the same PEM (RFC 7518 fixed-width EC members) and the PEM written back with the original; key2jwk is run on every ordered pair (thorough: triple) of key-file kinds (RSA/EC/OKP private and public PEM, raw) and every position must yield what the file yields alone; lists with empty tokens (blank stdin lines, empty arguments) in every good/bad/empty composition of 2-4 tokens; oct keys ending in LF, CR, CRLF, space, TAB, NUL; options placed after, between and around the tokens"),
+                "the same PEM (RFC 7518 fixed-width EC members) and the PEM written back with the original; key2jwk is run on every ordered pair (thorough: triple) of key-file kinds (RSA/EC/OKP private and public PEM, raw) and every position must yield what the file yields alone; lists with empty tokens (blank stdin lines, empty arguments) in every good/bad/empty composition of 2-4 tokens; oct keys ending in LF, CR, CRLF, space, TAB, NUL; options placed after, between and around the tokens; standard input whose last line is unterminated"),
     level_note="exit status 0 <=> every token verified is judged against tokens whose validity is known by construction and confirmed one by one",
     rule=("evaluations = tool invocations; cases = one composition family / one spelling combination / one key; non-trivial = cases "
           "whose round trip completed and was compared"),
